@@ -224,12 +224,16 @@ size_t carquet_bitunpack_32(const uint8_t* input, size_t count,
 
     /* Handle remaining values */
     if (i < count) {
+        /* Only packed_size(rem) bytes belong to the input: unpack from a padded copy */
         uint32_t temp[8];
-        carquet_bitunpack8_32(input + bytes_consumed, bit_width, temp);
+        uint8_t packed[32] = {0};
+        size_t remaining_bytes = carquet_packed_size(count - i, bit_width);
+        memcpy(packed, input + bytes_consumed, remaining_bytes);
+        carquet_bitunpack8_32(packed, bit_width, temp);
         for (size_t j = 0; j < count - i; j++) {
             values[i + j] = temp[j];
         }
-        bytes_consumed += carquet_packed_size(count - i, bit_width);
+        bytes_consumed += remaining_bytes;
     }
 
     return bytes_consumed;
@@ -305,8 +309,11 @@ size_t carquet_bitpack_32(const uint32_t* values, size_t count,
         for (size_t j = 0; j < count - i; j++) {
             temp[j] = values[i + j];
         }
+        /* Only packed_size(rem) bytes belong to the output: pack the group aside */
+        uint8_t packed[32];
         size_t remaining_bytes = carquet_packed_size(count - i, bit_width);
-        carquet_bitpack8_32(temp, bit_width, output + bytes_written);
+        carquet_bitpack8_32(temp, bit_width, packed);
+        memcpy(output + bytes_written, packed, remaining_bytes);
         bytes_written += remaining_bytes;
     }
 
